@@ -298,7 +298,7 @@ pub fn main() {
     let known = known_signatures("C26");
 
     let known1 = known.clone();
-    ck.sub("generated", SubCfg::new(150_000, 3_000_000).max_len(1500).max_shrink(20_000), move |t, c| {
+    ck.sub("generated", SubCfg::new(400_000, 6_000_000).max_len(1500).max_shrink(20_000), move |t, c| {
         let doc = gen_doc(t, Opts::everything());
         c.key(&doc.text);
         label_feat(c, &doc.feat);
@@ -319,7 +319,7 @@ pub fn main() {
     });
 
     let known2 = known.clone();
-    ck.sub("mutated", SubCfg::new(150_000, 3_000_000).max_len(1600).max_discard_pct(40).max_shrink(20_000), move |t, c| {
+    ck.sub("mutated", SubCfg::new(400_000, 6_000_000).max_len(1600).max_discard_pct(40).max_shrink(20_000), move |t, c| {
         let doc = gen_doc(t, Opts::everything());
         let mut f = Findings::default();
         let mut accepted = None;
